@@ -5,9 +5,10 @@
 -/
 import Chrono.Proofs.TzEncL
 import Chrono.Proofs.TzSamples
+import Chrono.Proofs.TzValidL
 
 namespace Chrono.Props.C16
-open Chrono Chrono.M.Tz Chrono.Spec.Tz Chrono.Proofs.Tz Chrono.Extracted.TzP
+open Chrono Chrono.M.Tz Chrono.Spec.Tz Chrono.Proofs.Tz Chrono.Proofs.TzValid Chrono.Extracted.TzP
 
 /-- the extracted header constants are the RFC 8536 ones the writer specification uses, and the
 extracted field bounds are the ones the well-formedness predicates are stated with -/
@@ -109,25 +110,94 @@ theorem tz_roundtrip (r : Rule) (ext : Bool) (h : RuleOk ext r) :
     from_tz_string (renderTz r) ext = .ok r :=
   tz_roundtrip' r ext h
 
+/-! #### what `TimeZone::validate` checks, characterised
+
+`validate` (timezone.rs) is the reader's last step.  Its model calls a three-valued, overflow-checked
+copy of the rule lookup (`find_ltt_for_validate`); C05 models the same Rust function
+`TransitionRule::find_local_time_type` `Option`-valued and proves it against a specification.  The
+next theorems identify the two models, the leap-second conversion with its specification, and then
+`validate` itself with the semantic condition it stands for. -/
+
+/-- the rule lookup `validate` performs IS C05's model of `TransitionRule::find_local_time_type`:
+same value, `Err` for `Err` (`toP none = err`), and never a panic — for every rule `from_tz_string`
+can build (`RuleV`, see `rule_accepted_is_valid`) and EVERY instant -/
+theorem validate_rule_lookup_is_c05 (r : Rule) (t : Int) (h : RuleV r) :
+    r.find_ltt_for_validate t = toP (r.find_local_time_type t) :=
+  rule_find_val r t h
+
+/-- `unix_leap_time_to_unix_time` (binary search in the leap-second table) is its specification
+`leapToUnix` (subtract the correction of the last record strictly before the leap time; `Err` for
+`i64::MIN` or an `i64` overflow), for every sorted table and every `i64` leap time -/
+theorem leap_conversion_ok (leaps : List LeapSecond) (t : Int) (ht : I64r t) (hs : LeapsSorted leaps) :
+    unix_leap_time_to_unix_time leaps t = toP (leapToUnix leaps t) :=
+  ulttut_val leaps t ht hs
+
+/-- `TimeZone::validate` accepts EXACTLY the zones with at least one local time type, strictly
+increasing transitions, type indices in range, a leap-second table meeting its constraints
+(`checkLeaps`: first record at a non-negative time with correction ±1, consecutive records at least
+28 days − 1 s apart with corrections differing by ±1), and — when there are both a rule and
+transitions — `RuleAgrees`: the rule lookup at the last transition's instant (its leap time converted
+by `leapToUnix`) succeeds and yields exactly the local time type the last transition switches to
+(same `ut_offset`, `is_dst` and designation).  Hypotheses: only what the Rust types guarantee of a
+`TimeZone` value (transition times are `i64`; the rule is one `from_tz_string` can build). -/
+theorem validate_iff (z : Zone) (ht : ∀ t ∈ z.transitions, I64r t.time)
+    (hr : ∀ r, z.rule = some r → RuleV r) :
+    validate z = .ok () ↔
+      (z.types ≠ [] ∧ SortedStrict z.transitions ∧ (∀ t ∈ z.transitions, t.idx < z.types.length)
+        ∧ checkLeaps z.leaps = true ∧ RuleAgrees z) :=
+  validate_iff' z ht hr
+
+/-- the agreement condition through C05's SPECIFICATION of a rule: for rules in C05's scope
+(`TzL.RuleOk`: rule days valid, both yearly transitions more than a day inside the calendar year)
+and a last transition within ±2^55 s, `RuleAgrees` says that `Spec.Zone.ruleOff` — daylight time iff
+the instant lies in `[start y, end y)` of its calendar year `y`, mirrored for southern-hemisphere
+rules — prescribes at the last transition exactly the type the table switches to -/
+theorem rule_agrees_spec (z : Zone) (hr : Proofs.TzL.RuleOk z.rule)
+    (hb : ∀ last ut, z.transitions.getLast? = some last → leapToUnix z.leaps last.time = some ut →
+      -36028797018963968 ≤ ut ∧ ut ≤ 36028797018963968) :
+    RuleAgrees z ↔ RuleAgreesSpec z :=
+  ruleAgrees_iff_spec' z hr hb
+
 /-- version 1: the file written for a block is read back as exactly that block's transitions, types
 (designations resolved) and leap seconds.  Hypotheses: counts fit the header (`BlockShape`), every
-value fits its field and every designation index is legal (`BlockVals`), and the zone passes
-`TimeZone::validate` (sorted transitions, indices in range, leap-second constraints). -/
+value fits its field and every designation index is legal (`BlockVals`), transitions strictly
+increasing with in-range type indices, and the leap-second table constraints (a v1 file has no rule). -/
 theorem tzif_roundtrip_v1 (f : TzFile) (hver : f.version = .V1) (hs : BlockShape f.v1)
-    (hv : BlockVals .V1 4 f.v1) (hval : validate (absBlock f.v1 none) = .ok ()) :
+    (hv : BlockVals .V1 4 f.v1)
+    (h1 : SortedStrict (absBlock f.v1 none).transitions)
+    (h2 : ∀ t ∈ (absBlock f.v1 none).transitions, t.idx < (absBlock f.v1 none).types.length)
+    (h3 : checkLeaps (absBlock f.v1 none).leaps = true) :
     parse (encodeTzif f) = .ok (absBlock f.v1 none) :=
-  tzif_roundtrip_v1' f hver hs hv hval
+  tzif_roundtrip_v1' f hver hs hv (validate_ok_of _ (by
+    intro e
+    have : f.v1.types.length = 0 := by simpa [absBlock] using congrArg List.length e
+    exact hs.ty0 this) h1 h2 h3 (Or.inl rfl))
 
-/-- versions 2 and 3: whatever the 32-bit block holds, the file is read back as exactly the 64-bit
-block and the footer's rule (`none` for an empty footer; the extensions only in version 3).  The
-remaining hypothesis `validate … = ok ()` is the reader's own consistency requirement on the zone
-(sorted transitions, indices in range, leap-second table, and the rule agreeing with the last
-transition — the latter is lookup semantics, property C05). -/
+/-- versions 2 and 3, FULL STRENGTH: whatever the 32-bit block holds, the file is read back as exactly
+the 64-bit block and the footer's rule (`none` for an empty footer; the extensions only in version 3),
+provided the written zone is consistent: transitions strictly increasing, type indices in range, the
+leap-second table constraints, and the footer rule agreeing with the last transition (`RuleAgrees`,
+which `rule_agrees_spec` restates through C05's rule specification).  No hypothesis mentions the
+reader: by `validate_iff` these four conditions are exactly what `validate` accepts. -/
 theorem tzif_roundtrip_v2 (f : TzFile) (hver : f.version ≠ .V1) (hs1 : BlockShape f.v1)
     (hs2 : BlockShape f.v2) (hv : BlockVals f.version 8 f.v2) (rule : Option Rule)
-    (hfoot : FooterOk f.version f.footer rule) (hval : validate (absBlock f.v2 rule) = .ok ()) :
+    (hfoot : FooterOk f.version f.footer rule)
+    (h1 : SortedStrict (absBlock f.v2 rule).transitions)
+    (h2 : ∀ t ∈ (absBlock f.v2 rule).transitions, t.idx < (absBlock f.v2 rule).types.length)
+    (h3 : checkLeaps (absBlock f.v2 rule).leaps = true) (h4 : RuleAgrees (absBlock f.v2 rule)) :
     parse (encodeTzif f) = .ok (absBlock f.v2 rule) :=
-  tzif_roundtrip_v2' f hver hs1 hs2 hv rule hfoot hval
+  tzif_roundtrip_v2_full' f hver hs1 hs2 hv rule hfoot h1 h2 h3 h4
+
+/-- the earlier forms, with the reader's own `validate` as the consistency hypothesis (equivalent by
+`validate_iff`; kept because they are what the harness oracle evaluates) -/
+theorem tzif_roundtrip_of_validate (f : TzFile) (hs1 : BlockShape f.v1) :
+    (f.version = .V1 → BlockVals .V1 4 f.v1 → validate (absBlock f.v1 none) = .ok () →
+      parse (encodeTzif f) = .ok (absBlock f.v1 none))
+    ∧ (f.version ≠ .V1 → BlockShape f.v2 → BlockVals f.version 8 f.v2 → ∀ rule,
+      FooterOk f.version f.footer rule → validate (absBlock f.v2 rule) = .ok () →
+      parse (encodeTzif f) = .ok (absBlock f.v2 rule)) :=
+  ⟨fun hver hv hval => tzif_roundtrip_v1' f hver hs1 hv hval,
+   fun hver hs2 hv rule hfoot hval => tzif_roundtrip_v2' f hver hs1 hs2 hv rule hfoot hval⟩
 
 /-- when the zone has no rule or no transitions, `validate` asks for nothing beyond the spec-level
 validity: a type, strictly increasing in-range transitions, and the leap-second table constraints -/
@@ -135,6 +205,32 @@ theorem validate_of_valid (z : Zone) (h0 : z.types ≠ []) (h1 : SortedStrict z.
     (h2 : ∀ t ∈ z.transitions, t.idx < z.types.length) (h3 : checkLeaps z.leaps = true)
     (h4 : z.rule = none ∨ z.transitions = []) : validate z = .ok () :=
   validate_ok_of z h0 h1 h2 h3 h4
+
+/-! #### accepted zones meet the invariants C05's lookup theorems assume -/
+
+/-- every zone the parser accepts satisfies the well-formedness C05's theorems take as hypotheses:
+`Spec.Zone.Valid` (a type, in-range indices, pairwise increasing transition times) and `TzL.Sorted`,
+`i32` offsets for every type index (first half of `TzL.InRange`), `i64` transition times, `ValidDay`
+rule days, a sorted leap-second table, and `RuleAgrees`.  Not parser invariants but restrictions of
+property C05 itself (so not derivable here): no leap-second records, `InsideYear`/`RuleYearly` rules,
+`WellSeparated` windows, transition times within ±2^62. -/
+theorem parsed_zone_wellformed (bytes : List Nat) (z : Zone) (h : parse bytes = .ok z) :
+    Spec.Zone.Valid z ∧ Proofs.TzL.Sorted z.transitions
+      ∧ (∀ i, -2147483648 ≤ (M.TzL.typeAt z i).off ∧ (M.TzL.typeAt z i).off ≤ 2147483647)
+      ∧ (∀ t ∈ z.transitions, I64r t.time)
+      ∧ (∀ a, z.rule = some (.alt a) → Proofs.TzL.ValidDay a.dstStart ∧ Proofs.TzL.ValidDay a.dstEnd)
+      ∧ LeapsSorted z.leaps ∧ RuleAgrees z :=
+  parsed_zone_wellformed' bytes z h
+
+/-- the first clause of C05's `JoinSeparated` ("at the last table transition the rule prescribes the
+type the table switches to — what `TimeZone::new` validates") is a THEOREM for accepted zones: without
+leap-second records, for a rule in C05's scope and a last transition within ±2^55 s -/
+theorem parsed_zone_join (bytes : List Nat) (z : Zone) (h : parse bytes = .ok z) (hl : z.leaps = [])
+    (rule : Rule) (last : Transition) (hrule : z.rule = some rule)
+    (hlast : z.transitions.getLast? = some last) (hr : Proofs.TzL.RuleOk (some rule))
+    (hb : -36028797018963968 ≤ last.time ∧ last.time ≤ 36028797018963968) :
+    Spec.Zone.ruleOff rule last.time = M.TzL.typeAt z last.idx :=
+  parsed_zone_join' bytes z h hl rule last hrule hlast hr hb
 
 /-- non-vacuity (kernel evaluation): three concrete written files are read back exactly — v1 with
 leap seconds and indicators, v2 with a POSIX footer consistent with its last transition, v3 with an
@@ -145,11 +241,45 @@ example :
       ∧ parse (encodeTzif sampleV3) = .ok (absBlock sampleV3.v2 (some sampleRule3)) :=
   tzif_roundtrip_samples
 
+/-- `sampleV2`'s footer rule `EST5EDT,M3.2.0,M11.1.0` agrees with its last transition
+(2023-11-14 22:13:20 UTC, standard time) -/
+theorem sampleV2_agrees : RuleAgrees (absBlock sampleV2.v2 (some sampleRule2)) := by
+  intro rule last h1 h2
+  cases h1
+  have e : (absBlock sampleV2.v2 (some sampleRule2)).transitions.getLast? = some ⟨1700000000, 0⟩ := by decide
+  rw [e] at h2
+  cases h2
+  exact ⟨1700000000, ⟨-18000, false, some (asc "EST")⟩, by decide, by decide, by decide +kernel⟩
+
 /-- non-vacuity: the hypotheses of `tzif_roundtrip_v2` hold for `sampleV2` with the canonical footer -/
 example : parse (encodeTzif { sampleV2 with footer := renderTz sampleRule2 })
     = .ok (absBlock sampleV2.v2 (some sampleRule2)) :=
   tzif_roundtrip_v2 { sampleV2 with footer := renderTz sampleRule2 } (by decide) sampleV2_shape1
-    sampleV2_shape2 sampleV2_vals _ (Or.inr ⟨sampleRule2, rfl, rfl, by decide⟩) (by decide +kernel)
+    sampleV2_shape2 sampleV2_vals _ (Or.inr ⟨sampleRule2, rfl, rfl, by decide⟩)
+    (show (1000000000 : Int) < 1700000000 ∧ True from ⟨by decide, trivial⟩) (by decide) (by decide)
+    sampleV2_agrees
+
+/-- non-vacuity of the "only if" direction: the same zone with the last transition switching to
+daylight time in mid-November is refused by `validate`, hence does not satisfy `RuleAgrees`; and the
+specification-level condition holds for the consistent zone -/
+example :
+    validate sampleBadZone = .err ∧ ¬ RuleAgrees sampleBadZone
+      ∧ RuleAgreesSpec (absBlock sampleV2.v2 (some sampleRule2)) := by
+  have hv : validate sampleBadZone = .err := by decide +kernel
+  refine ⟨hv, ?_, ?_⟩
+  · intro hag
+    have := (validate_iff sampleBadZone (by decide) (by
+      intro r hr; cases hr; exact ruleOk_ruleV false _ (by decide))).mpr
+      ⟨by decide, show (1000000000 : Int) < 1700000000 ∧ True from ⟨by decide, trivial⟩, by decide,
+        by decide, hag⟩
+    rw [hv] at this
+    cases this
+  · intro rule last h1 h2
+    cases h1
+    have e : (absBlock sampleV2.v2 (some sampleRule2)).transitions.getLast? = some ⟨1700000000, 0⟩ := by decide
+    rw [e] at h2
+    cases h2
+    exact ⟨1700000000, by decide, by decide +kernel⟩
 
 /-- non-vacuity: every cut point of the three sample files (kernel evaluation) -/
 example :
